@@ -1,7 +1,7 @@
 #!/bin/bash
-# usage: tools/seed_confirm.sh CNN   -- confirms an agent's deliverable in its own scratch worktree /tmp/wt/CNN:
+# usage: tools/seed_confirm.sh CNN [2]  -- confirms an agent's deliverable in its own scratch worktree /tmp/wt/CNN:
 #   demo passes on the clean tree, the patch applies, the suite stays green with it, the demo fails with it. Reverts afterwards.
-ID=$1; W=/tmp/wt/$ID; O=/tmp/wt/$ID-out
+ID=$1; W=/tmp/wt/$ID; O=/tmp/wt/$ID-out$2
 git -C $W checkout -q -- . ; git -C $W clean -fdq
 cmd=$(head -1 $O/demo.cpp | sed 's|^// *||; s|^/\* *||; s| *\*/$||; s|^[Bb]uild[^:]*: *||; s|^[Bb]uild+run: *||')
 echo "cmd: $cmd"
